@@ -316,4 +316,4 @@ CHECKS = {
 NOT_APPLICABLE = {}
 
 # checks that exist but are temporarily not claimed (being reconciled with repairs of other properties)
-SUSPENDED = {'C12': 'built and merged; its access-skeleton translator is following a late repair of ProtocolBase.sort_fields; not claimed until green again', 'C16': 'built and merged; its shape translator is following a late repair of get_flat_type_info (alias table); not claimed until green again'}
+SUSPENDED = {'C12': 'built and merged; its access-skeleton translator is following a late repair of ProtocolBase.sort_fields; not claimed until green again'}
